@@ -14,6 +14,7 @@ done
 {
 echo "# independently seeded changes against /repo $rev, $(date -u +%Y-%m-%dT%H:%MZ); exit=1: detected"
 for d in "$here"/seeded/*/; do
+    [ -f "$d/patch.diff" ] || continue
     id="$(basename "$d" | cut -c1-3)"
     # a few changes are detected by another check than the one they were written for
     alt="$(python3 -c "import json,sys; print(json.load(open(sys.argv[1])).get('detecting_check',''))" "$d/meta.json" 2>/dev/null)"
